@@ -30,6 +30,21 @@ CHECKS = {
          "AP-REQs are minted by an independent encoder/crypto for each of the six etypes under 72 service configurations; the base request, every single defect of a 60-entry catalogue (rejecting / neutral / not-judged) and seeded (quick) or all (thorough) ordered pairs are presented to service.VerifyAPREQ inside a testing/synctest bubble, so the four time bounds are decided to the nanosecond. Accept/reject and the reported identity (user name, realm, cname incl. type, expiry) must equal the reference acceptor's verdict computed from the same bytes, settings and virtual time.",
          "Trusts ref/accept, ref/kmsg, ref/kcrypto, ref/pac (self-tested: RFC vectors; AD-issued sample PAC verifies under its real key). Error codes are observed, not judged. Not judged: empty name lists, ticket with caddr while no client address is configured, sname krbtgt.",
          "5.C01"),
+ "C02": ("exhaustive cooperative scheduling over yield hooks + race-detector stress + porcupine linearizability of recorded histories under a virtual clock",
+         "exploration",
+         "Three monitors over the real replay cache: (1) every interleaving at yield-point granularity of eleven 2-3 goroutine scenarios (identical and neighbouring authenticators, two services, clean-up), enumerated depth-first by a cooperative scheduler and replayable from the choice list; (2) free-running stress built with -race: 2-8 goroutines released by a barrier present the same fresh authenticator and neighbours while clean-up runs, random Gosched at the hooks, distinct interleaving signatures counted; (3) bounded-exhaustive and long random sequential histories of presentations, clock advances and clean-ups under testing/synctest, through Cache.IsReplay and through service.VerifyAPREQ with reference-minted AP-REQs. Every history is checked for linearizability against a test-and-set model (porcupine) and for at-most-once / no-false-replay.",
+         "Exhaustive only at yield-point granularity for the listed scenarios; the stress monitor samples the Go scheduler on this machine. One skew per process is assumed. Race detector reports with a gokrb5 frame are violations.",
+         "5.C02"),
+ "C14": ("differential runtime monitor: keytab parser/serialiser/lookup vs independent MIT-format reader, writer and lookup filter",
+         "exploration",
+         "Generated keytab models (0..8 entries, 0..4 components, empty and 255+ byte names, unsupported etypes, kvno incl. 32-bit values with/without the 32-bit field, holes, 32-bit timestamps, versions 1 and 2) are rendered by an independent writer and parsed by gokrb5, serialised by gokrb5 and read back by the independent reader and by gokrb5, and ~40-60 look-ups per keytab (present values and near misses) are compared with a reference filter.",
+         "Trusts ref/keytab (self-tested against the repository's ten MIT-written sample keytabs, byte-identical re-encoding, and the JDK KeyTab reader when a JDK is present). Observe-only: timestamp signedness beyond 2^31, ties on the newest timestamp, key types >= 0x8000, version-1 name type, names >= 32768 bytes that are rejected.",
+         "5.C14"),
+ "C15": ("differential runtime monitor: ccache parser and accessors vs independent MIT-format writer; client built from the cache probed through a loopback listener",
+         "exploration",
+         "Generated cache models (versions 1-4, 0..6 credentials, names, keys 0..64 bytes, signed 32-bit times, flags, addresses, authdata, X-CACHECONF entries, v4 header with 0..2 fields incl. unknown tags) are rendered by an independent writer; every parsed field (flags as the 32-bit value), GetEntry/Contains/GetEntries/GetClient* and a client built with NewFromCCache (GetCachedTicket per SPN; the TGS-REQ it sends carries the cache's TGT and an authenticator under the cache's session key) are compared with the model.",
+         "Trusts ref/ccache (self-tested: hand-assembled v1-v4 files, byte-identical rewrite of the MIT-written sample, JDK FileCredentialsCache when present). Observe-only: version-1 name types, X-CACHECONF near-miss realms, caches without a TGT.",
+         "5.C15"),
 }
 
 NOT_YET = "check not built yet in this revision of /verif (construction in progress, see DESIGN.md section 9)"
@@ -82,6 +97,6 @@ def main():
     except ImportError:
         print("jsonschema not available; not validated")
 
-HOOK_COMMITS = []
+HOOK_COMMITS = ["31e9c5f", "a141e73"]
 if __name__ == "__main__":
     main()
